@@ -65,7 +65,30 @@ def run(seed=0, tier="quick"):
         requests, expects, traces, labels = [], [], [], []
         for si, shape in enumerate(shapes):
             r = impl.rng(seed, "poisson", dim, si)
-            ps = _solver(dim, shape, real_t, x_range=float(r.uniform(0.5, 2.0)))
+            xr = float(r.uniform(0.5, 2.0))
+            _solver(dim, shape, real_t, x_range=xr * float(r.uniform(1.3, 2.5)))   # another solver of this shape, other spacing, exists already
+            ps = _solver(dim, shape, real_t, x_range=xr)
+            # hypothesis of the C03 theorems on the table: transform of the documented Green's function, evenly reflected
+            # on the doubled domain, times the cell volume, for THIS solver's spacing
+            dbl = tuple(2 * n for n in shape)
+            table = np.zeros(dbl)
+            for sep in itertools.product(*[range(n) for n in dbl]):
+                table[sep] = greens(dim, tuple(min(a, 2 * n - a) for a, n in zip(sep, shape)), float(ps.dx))
+            ghat = np.fft.rfftn(table) * float(ps.dx) ** dim
+            gimp = np.asarray(getattr(ps, "fourier_greens_function_times_dx_squared" if dim == 2 else "fourier_greens_function_times_dx_cubed"))
+            terr = float(np.max(np.abs(gimp - ghat))) / float(np.max(np.abs(ghat))) if gimp.shape == ghat.shape else np.inf
+            res["worst_greens_table_err"] = max(res.get("worst_greens_table_err", 0.0), terr)
+            if not terr < 1e-10:
+                res.update(ok=False, detail=f"Green's function table of the {dim}D solver on {shape}, x_range {xr}: differs from the transform of the documented "
+                                            f"function at its own spacing dx = {float(ps.dx)} (rel. err {terr:.3e})",
+                           failing_case={"shape": list(shape), "x_range": xr})
+                return res
+            # the 2D solver's doubled buffer comes from pyfftw.empty_aligned and is first written by `solve` itself: whatever
+            # it holds is admissible; entries that are not finite cannot be sent to the model (ℚ) and are replaced by
+            # arbitrary finite values
+            bad = ~np.isfinite(ps.domain_doubled_buffer)
+            ps.domain_doubled_buffer[bad] = r.normal(size=int(bad.sum()))
+            res["uninitialised_nonfinite_entries_replaced"] = res.get("uninitialised_nonfinite_entries_replaced", 0) + int(bad.sum())
             sol = r.normal(size=shape).astype(real_t)
             for k in range(3):   # a history of solves on the same object
                 rhs = r.normal(size=shape).astype(real_t) if k < 2 else np.zeros(shape, dtype=real_t)
@@ -150,6 +173,8 @@ def oracle(seed=0, tier="quick", aimed=None):
         for real_t, tol in ((np.float64, 1e-10), (np.float32, 3e-4)):
             r = impl.rng(seed, "c03", ci)
             xr = float(r.uniform(0.5, 2.0))
+            if ci % 2 == 0:
+                _solver(dim, shape, real_t, x_range=xr * 1.7)   # solvers of one shape and different extents coexist in one process
             ps = _solver(dim, shape, real_t, x_range=xr)
             dx = float(ps.dx)
             info = {"dim": dim, "grid": list(shape), "dtype": real_t.__name__, "x_range": xr}
